@@ -48,6 +48,9 @@ func (f *Formatter) formatConditionLines(expr ast.Expression) ([]string, bool, b
 				lines = append(lines, extraIndent+line)
 			}
 			lines = append(lines, ")")
+			if v := f.formatComment(t.Trailing, "", 0); v != "" {
+				lines[len(lines)-1] += " " + v
+			}
 			return lines, true, true
 		}
 		inner := strings.TrimSpace(f.formatExpression(t.Right).String())
@@ -95,6 +98,10 @@ func (f *Formatter) formatConditionLines(expr ast.Expression) ([]string, bool, b
 			}
 			lines = append(lines, opLines...)
 			preserve = preserve || opPreserve
+		}
+		// The comment after the whole condition trails the last line
+		if v := f.formatComment(t.Trailing, "", 0); v != "" && len(lines) > 0 {
+			lines[len(lines)-1] += " " + v
 		}
 		return lines, true, preserve
 	}
